@@ -215,7 +215,7 @@ def run(
     with open(cfg, "w") as f:
         f.write(cfg_text)
     meta = os.path.join(workdir, "meta_" + module + "_%d" % int(time.time() * 1000))
-    cmd = ["java", "-XX:+UseParallelGC", "-Xmx" + heap, "-Xss32m"]
+    cmd = ["java", "-XX:+UseParallelGC", "-Xmx" + heap, "-Xss32m", "-Djava.io.tmpdir=" + workdir]
     if dfs:
         cmd.append("-Dtlc2.tool.queue.IStateQueue=StateDeque")
     cmd += ["-cp", JAR, "tlc2.TLC", "-workers", str(workers), "-metadir", meta,
